@@ -327,6 +327,7 @@ package codecs
 //@   modifies d.*
 //@   loop 0: invariant pos [C09]: 1 <= offset && offset <= len(payload) && obuOffset >= 0 && obuOffset <= offset && fresh(buff) && len(buff) >= 0 && int(obuCount) == bits(payload[0], 5, 4)
 //@   loop 0: invariant flags [C09,C13]: (d.Z <==> bits(payload[0], 7, 7) == 1) && (d.Y <==> bits(payload[0], 6, 6) == 1) && (d.N <==> bits(payload[0], 3, 3) == 1) && (obuZ <==> d.Z) && (obuY <==> d.Y)
+//@   loop 0: invariant resync [C15]: (!obuZ || obuN) && obuOffset == 0 ==> len(d.buffer) == 0
 //@   loop 0: invariant owned [C09]: d.buffer == nil || fresh(d.buffer) || (old(d.buffer) != nil && sameobj(d.buffer, old(d.buffer)))
 //@   loop 0: decreases len(payload) - offset + ite(obuOffset == 0, 1, 0)
 //@   ensures short [C09]: len(payload) <= 1 ==> errIs(err, errShortPacket)
